@@ -199,7 +199,7 @@ def C05(ctx):
     ctx.res.cov['exhaustive'] = not ctx.quick
     if ctx.quick:
         cases = ctx.sample(cases, 700)
-    cases += ctx.export('FamilyX(p, {"same-set-twice-direct", "same-set-twice-in-set", "inline-set-conflict"})')
+    cases += ctx.export('FamilyX(p, {"same-set-twice-direct", "same-set-twice-in-set", "inline-set-conflict", "same-provider-twice-direct", "same-provider-twice-in-set"})')
     ctx.design_analyze(cases, limit=500 if ctx.quick else 1200, label='family K ')
     ctx.run(cases, runtime=False, check=True)
 
@@ -251,7 +251,7 @@ def C10(ctx):
         w = json.dumps(c['expect'][0]['wiring'], sort_keys=True)
         if byb.setdefault(b, w) != w:
             raise Broken('WireSem wiring differs between regroupings of base ' + b)
-    cases += ctx.export('FamilyX(p, {"same-name-packages", "two-fieldsof-items", "bind-after-concrete", "two-unnamed-values", "multi-name-var-sets", "same-named-sets-two-packages", "inline-set-partly-used", "inline-set-in-named-set"})')
+    cases += ctx.export('FamilyX(p, {"same-name-packages", "two-fieldsof-items", "bind-after-concrete", "two-unnamed-values", "multi-name-var-sets", "same-named-sets-two-packages", "inline-set-partly-used", "inline-set-in-named-set", "sets-in-injector-file"})')
     ctx.design_analyze(cases, limit=250 if ctx.quick else 1500, label='family M ')
     ctx.run(cases, nontrivial=lambda c: c['prog']['sets'] != [], runtime=True, switches=W_ONLY)
 
